@@ -44,7 +44,7 @@ RULE = (
     "with >=2 converters of different configuration and a use between creations; distinct = the schedule / history"
 )
 
-CHILD_TIMEOUT = 120.0
+CHILD_TIMEOUT = float(os.environ.get("LSPVERIF_CHILD_TIMEOUT", "120"))
 
 
 def pkg():
@@ -1111,6 +1111,23 @@ def run(ctx: Ctx) -> None:
     evaluations = stats["sched:cases"] + stats["hist:creations"] + stats["hist:uses"] + stats["real:real_thread_trials"] + stats["cfg:cfg_comparisons"] + stats["fault:fault_histories"]
     if stats["hist:histories"] == 0 or stats["sched:cases"] == 0:
         raise HarnessError("no schedules or no histories were executed")
+    # children that did not finish within their time limit: the cases take seconds, the limit is two minutes. A leg in which
+    # most cases time out is a hang of the code under test ("is created without error" fails by never returning) - load on
+    # the machine does not do that; a few time-outs are inconclusive, and too many of them make the run itself inconclusive.
+    attempts = {"sched": stats["sched:cases"], "hist": stats["hist:histories"] + stats["hist:scripted_histories"],
+                "fault": stats["fault:fault_histories"] + stats["fault:inconclusive_timeouts"],
+                "cfg": max(1, stats["cfg:cfg_inputs"] // 40) + stats["cfg:inconclusive_timeouts"], "real": stats["real:real_thread_trials"] + stats["real:inconclusive_timeouts"]}
+    late_total = 0
+    for leg, n_att in attempts.items():
+        late = stats[f"{leg}:inconclusive_timeouts"]
+        late_total += late
+        if late >= 3 and n_att and late * 2 >= n_att:
+            ctx.finding(("does-not-return", leg, "time-limit"),
+                        f"{late} of {n_att} cases of the {leg} leg did not finish within {CHILD_TIMEOUT:.0f} s (a case takes seconds): creation or first use hangs",
+                        {"leg": leg, "timed_out": late, "attempted": n_att})
+    all_attempts = sum(attempts.values())
+    if not ctx.violations and late_total > max(3, all_attempts // 20):
+        raise HarnessError(f"{late_total} of {all_attempts} cases timed out: the run is inconclusive")
     ctx.coverage.update({
         "evaluations": max(evaluations, 1), "distinct_nontrivial": len(distinct), "rule": RULE, "samples": samples[:5],
         "stats": dict(stats), "exhaustive": False,
@@ -1118,7 +1135,7 @@ def run(ctx: Ctx) -> None:
     ctx.assumptions = [
         "interleavings at source-line granularity inside _resolve_forward_references and at calls of its _filter closure; switches inside C code are not controlled (atomic under the GIL)",
         "outcomes are compared as raised / serialised JSON, never by exception type",
-        "a child that exceeds its time limit is inconclusive, never a violation",
+        "a child that exceeds its time limit is inconclusive; a leg in which half of the cases or more exceed it is reported as a hang, and more than 5% over all legs make the run a harness error",
         "a creation interrupted by an injected asynchronous exception or RecursionError is a failed creation, not a violation; the converters created after it are held to the property",
     ]
 
